@@ -310,4 +310,144 @@ theorem keepM_execU (fault : Option Item) (f : Nat) (c : CallU) (s : State) (hs 
         rw [he]
         exact ⟨inv_of_core3 hc.1 hc.2.1 hc.2.2 hi2, hc.2.1.trans (hf2.trans hst.2.1), hc.1.trans (hn2.trans hst.1), focus_user _ _⟩
 
+/-! ### histories, for every user (master included) -/
+
+/-- The hypothesis on a multi-user history for user `u`, MASTER INCLUDED.  As `okHistU`: the operations on u's own files
+    give them timestamps they never had, and no load for `u` happens between an edit that changes the imports of one of
+    u's files and `load_metadata(u)`.  For master (`u = 0`) "a load for `u`" includes the loads of every other user and the
+    module imports, because their lazily imported modules call `basic.load_theory` on master. -/
+def okHistA (W : World) (fuel : Nat) (u : Nat) : List OpU → State → Used → Bool → Prop
+  | [], _, _, stale => stale = false
+  | .load v n lim fault :: ops, s, U, stale =>
+    ((v = u ∨ u = 0) → stale = false) ∧ okHistA W fuel u ops (stepU W fuel (.load v n lim fault) s).2 U stale
+  | .imp m :: ops, s, U, stale => (u = 0 → stale = false) ∧ okHistA W fuel u ops (stepU W fuel (.imp m) s).2 U stale
+  | .touch v n t :: ops, s, U, stale =>
+    (v = u → t ∉ U n) ∧ okHistA W fuel u ops (stepU W fuel (.touch v n t) s).2 (if v = u then bump U n t else U) stale
+  | .edit v n imps items t :: ops, s, U, stale =>
+    (v = u → t ∉ U n) ∧ okHistA W fuel u ops (stepU W fuel (.edit v n imps items t) s).2 (if v = u then bump U n t else U)
+      (if v = u then (stale || decide (imps ≠ ((s.focus u).files n).imports)) else stale)
+  | .reloadMeta v :: ops, s, U, stale =>
+    okHistA W fuel u ops (stepU W fuel (.reloadMeta v) s).2 U (if v = u then false else stale)
+
+omit L U in
+/-- for a non-master user it is the hypothesis of UsersHist.lean -/
+theorem okHistA_okHistU (fuel : Nat) (u : Nat) (hu : u ≠ 0) :
+    ∀ (ops : List OpU) (s : State) (U : Used) (stale : Bool), okHistA W fuel u ops s U stale → okHistU W fuel u ops s U stale := by
+  intro ops
+  induction ops with
+  | nil => intro s U stale h; exact h
+  | cons op ops ih =>
+    intro s U stale h
+    cases op with
+    | load v n lim fault => exact ⟨fun hv => h.1 (Or.inl hv), ih _ _ _ h.2⟩
+    | imp m => exact ih _ _ _ h.2
+    | touch v n t => exact ⟨h.1, ih _ _ _ h.2⟩
+    | edit v n imps items t => exact ⟨h.1, ih _ _ _ h.2⟩
+    | reloadMeta v => exact ih _ _ _ h
+
+/-- what is maintained for master along a multi-user history (the caller's focus is master) -/
+def J0 (W : World) (s : State) (U : Used) (stale : Bool) : Prop :=
+  s.user = 0 ∧ (stale = false → Inv W s.lib U s) ∧ ∀ k, (s.files k).mtime ∈ U k
+
+omit L U in
+theorem J0.transfer {s s' : State} {U : Used} {stale : Bool} (h : J0 W s U stale) (hus : s'.user = 0) (hc : SameCore s s') :
+    J0 W s' U stale := by
+  refine ⟨hus, fun hst => ?_, fun k => by rw [hc.2.1]; exact h.2.2 k⟩
+  rw [lib_congr hc.2.1 hc.2.2]
+  exact (h.2.1 hst).of_sameCore hc
+
+/-- work on the files / metadata of another user `v` leaves master (in the caller's focus) as it was -/
+theorem other_user_core (s x : State) (v : Nat) (hs : s.user = 0) (hv : v ≠ 0) (hxu : x.user = v)
+    (hxo : x.others 0 = (s.focus v).others 0) : SameCore s (x.focus 0) ∧ (x.focus 0).user = 0 := by
+  have hst := focus_stores s v (by rw [hs]; exact hv)
+  rw [hs] at hst
+  have hc := focus_core x 0 (by rw [hxu]; exact fun h => hv h.symm)
+  rw [hxo] at hc
+  exact ⟨⟨hc.2.2.trans hst.2.2, hc.2.1.trans hst.2.1, hc.1.trans hst.1⟩, focus_user _ _⟩
+
+omit L U in
+theorem runU_inv0 (fuel : Nat) :
+    ∀ (ops : List OpU) (s : State) (U : Used) (stale : Bool), J0 W s U stale → okHistA W fuel 0 ops s U stale →
+      ∃ U', J0 W (runU W fuel ops s) U' false := by
+  intro ops
+  induction ops with
+  | nil => intro s U stale hj hok; exact ⟨U, by rw [show stale = false from hok] at hj; exact hj⟩
+  | cons op ops ih =>
+    intro s U stale hj hok
+    rw [runU]
+    have hs0 : s.user = 0 := hj.1
+    have hself : s.focus 0 = s := focus_self s 0 hs0.symm
+    cases op with
+    | load v n lim fault =>
+      obtain ⟨hst, hok'⟩ := hok
+      have hst := hst (Or.inr rfl)
+      obtain ⟨h1, h2, h3, h4⟩ := keepM_execU W s.lib U fault fuel (.load v n lim) s hs0 (hj.2.1 hst)
+      refine ih _ U stale ⟨h4, fun _ => ?_, fun k => ?_⟩ hok'
+      · rw [show (stepU W fuel (.load v n lim fault) s).2.lib = s.lib from lib_congr h2 h3]; exact h1
+      · rw [show (stepU W fuel (.load v n lim fault) s).2.files = s.files from h2]; exact hj.2.2 k
+    | imp m =>
+      obtain ⟨hst, hok'⟩ := hok
+      have hst := hst rfl
+      obtain ⟨h1, h2, h3, h4⟩ := keepM_execU W s.lib U none fuel (.imp m) s hs0 (hj.2.1 hst)
+      refine ih _ U stale ⟨h4, fun _ => ?_, fun k => ?_⟩ hok'
+      · rw [show (stepU W fuel (.imp m) s).2.lib = s.lib from lib_congr h2 h3]; exact h1
+      · rw [show (stepU W fuel (.imp m) s).2.files = s.files from h2]; exact hj.2.2 k
+    | touch v n t =>
+      obtain ⟨hfresh, hok'⟩ := hok
+      by_cases hv : v = 0
+      · subst hv
+        simp only [if_true] at hok'
+        have hstep : (stepU W fuel (.touch 0 n t) s).2 = setFile s n { s.files n with mtime := t } := by
+          show (setFile (s.focus 0) n { (s.focus 0).files n with mtime := t }).focus s.user = _
+          rw [hself]; exact focus_self _ _ rfl
+        rw [hstep] at hok' ⊢
+        refine ih _ (bump U n t) stale ⟨hs0, fun hst => ?_, mtimes_setFile U s hj.2.2 n _⟩ hok'
+        exact setFile_inv W U s (hj.2.1 hst) n { s.files n with mtime := t } rfl (hfresh rfl)
+      · simp only [hv, if_false] at hok'
+        have hstep : (stepU W fuel (.touch v n t) s).2 = (setFile (s.focus v) n { (s.focus v).files n with mtime := t }).focus 0 := by
+          show (setFile (s.focus v) n { (s.focus v).files n with mtime := t }).focus s.user = _; rw [hs0]
+        obtain ⟨h1, h2⟩ := other_user_core s (setFile (s.focus v) n { (s.focus v).files n with mtime := t }) v hs0 hv (focus_user s v) rfl
+        rw [← hstep] at h1 h2
+        exact ih _ U stale (hj.transfer W h2 h1) hok'
+    | edit v n imps items t =>
+      obtain ⟨hfresh, hok'⟩ := hok
+      by_cases hv : v = 0
+      · subst hv
+        simp only [if_true] at hok'
+        rw [hself] at hok'
+        have hstep : (stepU W fuel (.edit 0 n imps items t) s).2 = setFile s n { imports := imps, items := items, mtime := t } := by
+          show (setFile (s.focus 0) n { imports := imps, items := items, mtime := t }).focus s.user = _
+          rw [hself]; exact focus_self _ _ rfl
+        rw [hstep] at hok' ⊢
+        refine ih _ (bump U n t) _ ⟨hs0, fun hst => ?_, mtimes_setFile U s hj.2.2 n _⟩ hok'
+        simp only [Bool.or_eq_false_iff, decide_eq_false_iff_not, ne_eq, Decidable.not_not] at hst
+        exact setFile_inv W U s (hj.2.1 hst.1) n { imports := imps, items := items, mtime := t } hst.2 (hfresh rfl)
+      · simp only [hv, if_false] at hok'
+        have hstep : (stepU W fuel (.edit v n imps items t) s).2 = (setFile (s.focus v) n { imports := imps, items := items, mtime := t }).focus 0 := by
+          show (setFile (s.focus v) n { imports := imps, items := items, mtime := t }).focus s.user = _; rw [hs0]
+        obtain ⟨h1, h2⟩ := other_user_core s (setFile (s.focus v) n { imports := imps, items := items, mtime := t }) v hs0 hv (focus_user s v) rfl
+        rw [← hstep] at h1 h2
+        exact ih _ U stale (hj.transfer W h2 h1) hok'
+    | reloadMeta v =>
+      rw [okHistA] at hok
+      by_cases hv : v = 0
+      · subst hv
+        simp only [↓reduceIte] at hok
+        have hm := loadMetadata_inv W s.lib U (filesOk_lib s) hj.2.2
+        have hu : (loadMetadata s).2.user = s.user := (fr_loadMetadata (A := 0) s).1
+        have hstep : (stepU W fuel (.reloadMeta 0) s).2 = (loadMetadata s).2 := by
+          show (loadMetadata (s.focus 0)).2.focus s.user = _
+          rw [hself]; exact focus_self _ _ hu.symm
+        rw [hstep] at hok ⊢
+        refine ih _ U false ⟨hu.trans hs0, fun _ => ?_, fun k => ?_⟩ hok
+        · rw [lib_congr hm.2.1 hm.2.2.1]; exact hm.1
+        · rw [hm.2.1]; exact hj.2.2 k
+      · simp only [hv, if_false] at hok
+        have hfr : Fr 0 (s.focus v) (loadMetadata (s.focus v)).2 := fr_loadMetadata _
+        have hstep : (stepU W fuel (.reloadMeta v) s).2 = (loadMetadata (s.focus v)).2.focus 0 := by
+          show (loadMetadata (s.focus v)).2.focus s.user = _; rw [hs0]
+        obtain ⟨h1, h2⟩ := other_user_core s (loadMetadata (s.focus v)).2 v hs0 hv (hfr.1.trans (focus_user s v)) hfr.2
+        rw [← hstep] at h1 h2
+        exact ih _ U stale (hj.transfer W h2 h1) hok
+
 end Holpy.C12
